@@ -171,6 +171,9 @@ class Report:
             "violating_signatures": sorted(self.violations.keys()),
         }
         cov.update(self.extra)
+        for key in ("programs", "obligations", "discharged", "disagreements_checked"):   # integer-typed keys of the evidence schema
+            if key in cov and not isinstance(cov[key], int):
+                raise MachineryError(f"evidence key {key} must be an integer")
         ev = {
             "property_id": self.prop,
             "tier": self.tier,
